@@ -6,7 +6,7 @@
  * bytes (so that reading past the NUL is an out-of-bounds read) whose NUL sits at offset xv_in_len.  "No NUL before it"
  * is stated for ONE arbitrary position, the never-assigned ghost xv_j, i.e. proved for every position.  The models below
  * return lengths computed from the ghost length after ASSERTING what justifies the value (NUL at the ghost length, no
- * NUL at position xv_j before it, pointer inside the string): a string function applied to anything but a suffix of
+ * NUL at position xv_j before it nor at the first three positions, pointer inside the string): a string function applied to anything but a suffix of
  * the input string is a failed obligation, not an unsound answer.  Positions are offsets in the input object.
  */
 #ifndef XV_ADDRPUB_ENV_H
@@ -28,6 +28,7 @@ size_t xv_strlen(const char *s)
     __CPROVER_assert(off <= xv_in_len, "string model: the pointer lies inside the input string (at or before its NUL)");
     __CPROVER_assert(s[xv_in_len - off] == 0, "string model: NUL at the ghost length");
     __CPROVER_assert(!XV_J_IN(off, xv_in_len) || s[(size_t)xv_j - off] != 0, "string model: no NUL before the ghost length (arbitrary position)");
+    __CPROVER_assert((off > 0 || 0 >= xv_in_len || s[0 - off] != 0) && (off > 1 || 1 >= xv_in_len || s[1 - off] != 0) && (off > 2 || 2 >= xv_in_len || s[2 - off] != 0), "string model: no NUL before the ghost length (first three positions)");
     return xv_in_len - off;
 }
 
@@ -55,37 +56,44 @@ char *xv_strchr(const char *s, int c)
 }
 
 /* TRUSTED(libc) strncpy(3) with n <= strlen(src) (no padding, no NUL appended; anything else is a failed obligation):
- * n bytes of dst become arbitrary except the byte at the arbitrary position xv_j (counted from src), which is the
- * source byte (over-approximation of the exact copy).  Ghost xv_ncpy_len: the n of the last call. */
+ * n bytes of dst become arbitrary except the first three and the copy of the source byte at the arbitrary position xv_j
+ * (an offset in the INPUT object, like everywhere in this file), if that lies in the copied range (over-approximation of
+ * the exact copy).
+ * Ghost xv_ncpy_len: the n of the last call. */
 size_t xv_ncpy_len;
 char *xv_strncpy(char *dst, const char *src, size_t n)
 {
+    size_t off = XV_S_OFF(src);
     size_t len = xv_strlen(src);
     __CPROVER_assert(n <= len, "strncpy model: only used with n <= strlen(src)");
     if (n > 0) {
         __CPROVER_assert(__CPROVER_w_ok(dst, n), "strncpy: destination has room for n bytes");
-        _Bool jin = XV_J_IN(0, n);
-        char keep = jin ? src[xv_j] : 0;
+        _Bool jin = XV_J_IN(off, off + n);
+        char keep = jin ? src[(size_t)xv_j - off] : 0, k0 = src[0], k1 = n > 1 ? src[1] : 0, k2 = n > 2 ? src[2] : 0;
         __CPROVER_havoc_slice(dst, n);
-        if (jin) dst[xv_j] = keep;
+        dst[0] = k0; if (n > 1) dst[1] = k1; if (n > 2) dst[2] = k2;
+        if (jin) dst[(size_t)xv_j - off] = keep;
     }
     xv_ncpy_len = n;
     return dst;
 }
 
 /* TRUSTED(libc) strcpy(3) of a suffix of the input string: needs room for the string and its NUL (an obligation); the
- * destination becomes arbitrary except for the NUL and the byte at the arbitrary position xv_j (counted from src).
+ * destination becomes arbitrary except for the NUL, the first three bytes and the copy of the source byte at the
+ * arbitrary position xv_j.
  * Ghost xv_cpy_len: the length of the string the last call copied. */
 size_t xv_cpy_len;
 char *xv_strcpy(char *dst, const char *src)
 {
+    size_t off = XV_S_OFF(src);
     size_t n = xv_strlen(src);
     __CPROVER_assert(__CPROVER_w_ok(dst, n + 1), "strcpy: destination has room for the string and its NUL");
-    _Bool jin = XV_J_IN(0, n);
-    char keep = jin ? src[xv_j] : 0;
+    _Bool jin = XV_J_IN(off, xv_in_len);
+    char keep = jin ? src[(size_t)xv_j - off] : 0, k0 = src[0], k1 = n > 1 ? src[1] : 0, k2 = n > 2 ? src[2] : 0;
     __CPROVER_havoc_slice(dst, n + 1);
+    dst[0] = k0; if (n > 1) dst[1] = k1; if (n > 2) dst[2] = k2;
     dst[n] = 0;
-    if (jin) dst[xv_j] = keep;
+    if (jin) dst[(size_t)xv_j - off] = keep;
     xv_cpy_len = n;
     return dst;
 }
@@ -103,19 +111,20 @@ const unsigned short **__ctype_b_loc(void) { return &xv_ctype_p; }
 #define XV_ISSPACE(c) ((xv_ctype_tab[128 + (int)(c)] & _ISspace) != 0)
 
 /* TRUSTED(libc) inet_pton(3): textual IP syntax is glibc's.  Verdict 0/1 arbitrary; on 1 the address bytes (4 or 16) are
- * arbitrary.  Ghost record of the (single) call: family, verdict, the bytes produced, and the byte of the source string at
- * the arbitrary position xv_j (0 if outside the source object).  Reached from the TU through the rename at the end of this
+ * arbitrary.  Ghost record of the (single) call: family, verdict, the bytes produced, and the bytes of the source string at
+ * the arbitrary position xv_j and at xv_j - 1 (0 if outside the source object).  Reached from the TU through the rename at the end of this
  * file; env/base.h's unrecorded inet_pton stays for everybody else. */
-int xv_pton_calls, xv_pton_af, xv_pton_ret; char xv_pton_c; uint8_t xv_pton_out[16];
+int xv_pton_calls, xv_pton_af, xv_pton_ret; char xv_pton_c, xv_pton_c1; uint8_t xv_pton_out[16];
 int xv_inet_pton(int af, const char *src, void *dst)
 {
     size_t room = __CPROVER_OBJECT_SIZE(src) - XV_S_OFF(src);
     xv_pton_calls++; xv_pton_af = af;
     xv_pton_c = (xv_j >= 0 && (size_t)xv_j < room) ? src[xv_j] : 0;
+    xv_pton_c1 = (xv_j >= 1 && (size_t)xv_j - 1 < room) ? src[xv_j - 1] : 0;
     if (af != AF_INET && af != AF_INET6) { xv_errno = EAFNOSUPPORT; xv_pton_ret = -1; return -1; }
     if (nondet_bool()) { xv_pton_ret = 0; return 0; }
     uint8_t *d = dst;
-    __CPROVER_havoc_slice(dst, af == AF_INET6 ? 16 : 4);
+    if (af == AF_INET6) __CPROVER_havoc_slice(dst, 16); else __CPROVER_havoc_slice(dst, 4);   /* (one call with a conditional size crashes cbmc 6.11's trace printer) */
     xv_pton_out[0] = d[0]; xv_pton_out[1] = d[1]; xv_pton_out[2] = d[2]; xv_pton_out[3] = d[3];
     if (af == AF_INET6) {
         xv_pton_out[4] = d[4]; xv_pton_out[5] = d[5]; xv_pton_out[6] = d[6]; xv_pton_out[7] = d[7];
@@ -151,7 +160,7 @@ static inline void xv_addrpub_env_havoc(void)
     xv_in_len = nondet_size_t();
     xv_chr_calls = nondet_int(); xv_chr_found = nondet_bool(); xv_chr_pos = nondet_size_t();
     xv_ncpy_len = nondet_size_t(); xv_cpy_len = nondet_size_t();
-    xv_pton_calls = nondet_int(); xv_pton_af = nondet_int(); xv_pton_ret = nondet_int(); xv_pton_c = nondet_char();
+    xv_pton_calls = nondet_int(); xv_pton_af = nondet_int(); xv_pton_ret = nondet_int(); xv_pton_c = nondet_char(); xv_pton_c1 = nondet_char();
     __CPROVER_havoc_slice(xv_pton_out, sizeof(xv_pton_out));
     xv_regexec_calls = nondet_int(); xv_regexec_ret = nondet_int(); xv_regexec_on_input = nondet_bool();
     /* <ctype.h> table: arbitrary, except the _ISspace bit of the 128 ASCII codes */
